@@ -4,6 +4,15 @@ Require Import SP.Base.Str SP.Base.StrFacts SP.Lib.Env SP.Lib.Builder SP.Proofs.
 Import ListNotations.
 Local Open Scope N_scope.
 
+Lemma stdin_redir_inv base e r e' : apply_op base e (OStdin (IRedir r)) = Some e' ->
+  r <> BMerge /\ exists r', set_once (b_in e) r = Some r'
+    /\ e' = mkexec (b_command e) (b_args e) (b_env e) (b_cwd e) r' (b_out e) (b_err e) (b_detached e) (b_data e).
+Proof.
+  unfold apply_op. destruct r; try discriminate;
+    (destruct (set_once (b_in e) _) as [r'|]; [|discriminate]; intros H; injection H as <-;
+     split; [discriminate|eexists; split; reflexivity]).
+Qed.
+
 (* ---------- arguments ---------- *)
 
 Definition added (o : op) : list str :=
@@ -14,7 +23,7 @@ Lemma apply_args base e o e' : apply_op base e o = Some e' ->
 Proof.
   destruct o as [a|l|k v|l|k| |d|[r|d]|r|r| | |]; cbn; intros H;
     try (injection H as <-; cbn; rewrite ?app_nil_r; split; reflexivity).
-  - destruct (set_once (b_in e) r); [|discriminate]. injection H as <-. cbn. rewrite app_nil_r. split; reflexivity.
+  - apply (stdin_redir_inv base) in H. destruct H as [_ [r' [_ ->]]]. cbn. rewrite app_nil_r. split; reflexivity.
   - destruct (b_in e); try discriminate. injection H as <-. cbn. rewrite app_nil_r. split; reflexivity.
   - destruct (set_once (b_out e) r); [|discriminate]. injection H as <-. cbn. rewrite app_nil_r. split; reflexivity.
   - destruct (set_once (b_err e) r); [|discriminate]. injection H as <-. cbn. rewrite app_nil_r. split; reflexivity.
@@ -89,7 +98,7 @@ Proof.
     destruct (str_eqb k k0); reflexivity.
   - injection H as <-. rewrite ensure_set, last_binding_app. reflexivity.
   - injection H as <-. rewrite ensure_set. apply last_binding_retain.
-  - destruct (set_once (b_in e) r); [|discriminate]. injection H as <-. reflexivity.
+  - apply (stdin_redir_inv base) in H. destruct H as [_ [r' [_ ->]]]. reflexivity.
   - destruct (b_in e); try discriminate. injection H as <-. reflexivity.
   - destruct (set_once (b_out e) r); [|discriminate]. injection H as <-. reflexivity.
   - destruct (set_once (b_err e) r); [|discriminate]. injection H as <-. reflexivity.
@@ -116,7 +125,7 @@ Proof.
   - cbn [run_plain] in H. destruct (apply_op base e o) as [e1|] eqn:A; [|discriminate].
     inversion F as [|? ? Fo Fr]; subst. rewrite (IH _ _ H Fr).
     destruct o as [a|l|k0 v|l|k0| |d|[x|d]|x|x| | |]; cbn in A; try contradiction; try (injection A as <-; reflexivity).
-    + destruct (set_once (b_in e) x); [|discriminate]. injection A as <-. reflexivity.
+    + apply (stdin_redir_inv base) in A. destruct A as [_ [r' [_ ->]]]. reflexivity.
     + destruct (b_in e); try discriminate. injection A as <-. reflexivity.
     + destruct (set_once (b_out e) x); [|discriminate]. injection A as <-. reflexivity.
     + destruct (set_once (b_err e) x); [|discriminate]. injection A as <-. reflexivity.
@@ -160,19 +169,23 @@ Proof.
   - cbn. intros e' H. destruct (b_err e) eqn:O, r; cbn in H; try discriminate; injection H as <-; cbn; auto.
 Qed.
 
+Lemma stdin_redir_none base e r : r <> BMerge ->
+  (apply_op base e (OStdin (IRedir r)) = None <-> set_once (b_in e) r = None).
+Proof. intros N. unfold apply_op. destruct r; try congruence; destruct (set_once (b_in e) _); split; congruence. Qed.
+
 Theorem stdin_set_once base e a :
   (apply_op base e (OStdin a) = None <->
-   b_in e <> BNone /\ ~ (b_in e = BPipe /\ a = IRedir BPipe)).
+   a = IRedir BMerge \/ (b_in e <> BNone /\ ~ (b_in e = BPipe /\ a = IRedir BPipe))).
 Proof.
-  destruct a as [r|d]; cbn [apply_op].
-  - pose proof (set_once_spec (b_in e) r) as S. destruct (set_once (b_in e) r) eqn:Q.
-    + split; [discriminate|]. intros [H1 H2]. assert (Some b = None) as N.
-      { apply S. split; [exact H1|]. intros [A B]. apply H2. split; [exact A|congruence]. }
-      discriminate N.
-    + split; [intros _|reflexivity]. destruct (proj1 S eq_refl) as [Q1 Q2]. split; [exact Q1|].
-      intros [A B]. apply Q2. split; [exact A|congruence].
-  - destruct (b_in e); split; try discriminate; try congruence;
-      try (intros _; split; [discriminate|intros [_ H]; discriminate]); intros [H _]; congruence.
+  destruct a as [r|d].
+  - destruct r as [| | |id];
+      try (split; [intros _; left; reflexivity|reflexivity]);
+      (rewrite stdin_redir_none by discriminate; rewrite set_once_spec; split;
+       [intros [H1 H2]; right; split; [exact H1|]; intros [A B]; apply H2; split; [exact A|congruence]
+       |intros [C|[H1 H2]]; [discriminate C|]; split; [exact H1|]; intros [A B]; apply H2; split; [exact A|congruence]]).
+  - cbn [apply_op]. destruct (b_in e); split; try discriminate; try congruence;
+      try (intros _; right; split; [discriminate|intros [_ H]; discriminate]);
+      intros [C|[H _]]; [discriminate|congruence].
 Qed.
 
 (* a stream that has been given a setting keeps it through every later call that does not panic: nothing is
@@ -182,7 +195,8 @@ Lemma apply_keeps base e o e' : apply_op base e o = Some e' ->
 Proof.
   destruct o as [a|l|k0 v|l|k0| |d|[r|d]|r|r| | |]; cbn; intros H;
     try (injection H as <-; cbn; repeat split; reflexivity).
-  - destruct (b_in e) eqn:I, r; cbn in H; try discriminate; injection H as <-; cbn; repeat split; congruence.
+  - apply (stdin_redir_inv base) in H. destruct H as [_ [r' [S ->]]]. cbn.
+    destruct (b_in e) eqn:I, r; cbn in S; try discriminate; injection S as <-; repeat split; congruence.
   - destruct (b_in e) eqn:I; try discriminate. injection H as <-. cbn. repeat split; try congruence.
   - destruct (b_out e) eqn:I, r; cbn in H; try discriminate; injection H as <-; cbn; repeat split; congruence.
   - destruct (b_err e) eqn:I, r; cbn in H; try discriminate; injection H as <-; cbn; repeat split; congruence.
@@ -213,8 +227,8 @@ Lemma data_inv_step base e o e' : data_inv e -> apply_op base e o = Some e' -> d
 Proof.
   unfold data_inv. destruct o as [a|l|k0 v|l|k0| |d|[r|d]|r|r| | |]; cbn; intros I H;
     try (injection H as <-; cbn; exact I).
-  - destruct (b_in e) eqn:B, r; cbn in H; try discriminate; injection H as <-; cbn; intros N; auto;
-      specialize (I N); congruence.
+  - apply (stdin_redir_inv base) in H. destruct H as [_ [r' [S ->]]]. cbn. intros N. specialize (I N). rewrite I in S.
+    destruct r; cbn in S; try discriminate; injection S as <-; reflexivity.
   - destruct (b_in e) eqn:B; try discriminate. injection H as <-. cbn. reflexivity.
   - destruct (set_once (b_out e) r); [|discriminate]. injection H as <-. cbn. exact I.
   - destruct (set_once (b_err e) r); [|discriminate]. injection H as <-. cbn. exact I.
@@ -225,7 +239,7 @@ Lemma data_kept_step base e o e' : data_inv e -> apply_op base e o = Some e' -> 
 Proof.
   unfold data_inv. destruct o as [a|l|k0 v|l|k0| |d|[r|d]|r|r| | |]; cbn; intros I H N;
     try (injection H as <-; reflexivity).
-  - destruct (set_once (b_in e) r); [|discriminate]. injection H as <-. reflexivity.
+  - apply (stdin_redir_inv base) in H. destruct H as [_ [r' [_ ->]]]. reflexivity.
   - specialize (I N). rewrite I in H. discriminate.
   - destruct (set_once (b_out e) r); [|discriminate]. injection H as <-. reflexivity.
   - destruct (set_once (b_err e) r); [|discriminate]. injection H as <-. reflexivity.
@@ -258,12 +272,12 @@ Proof. intros H. cbn. unfold popen. rewrite H. repeat split; reflexivity. Qed.
 
 Theorem data_delivered e d : b_data e = Some d -> data_inv e ->
   forall t, t = TCapture \/ t = TCommunicate ->
-  forall l, terminate e t = Some l -> l_data l = Some d /\ l_in l = BPipe /\ l_argv l = b_command e :: b_args e.
+  forall l, terminate e t = Some l -> l_data l = Some d /\ l_in l = BPipe /\ l_argv l = b_command e :: b_args e /\ l_panics_after l = false.
 Proof.
   intros H I t Ht l T. assert (b_in e = BPipe) as Hin by (apply I; congruence).
   destruct Ht as [-> | ->]; cbn in T; unfold setup_communicate, no_data in T; cbn in T;
     rewrite H in T;
-    destruct (b_out e) eqn:O, (b_err e) eqn:E; cbn in T; injection T as <-; cbn; auto.
+    destruct (b_out e) eqn:O, (b_err e) eqn:E; cbn in T; injection T as <-; cbn; rewrite ?Hin; auto.
 Qed.
 
 (* capture / communicate without any output setting capture stdout; an explicit setting is kept *)
